@@ -90,13 +90,11 @@ def step (a : Acc) (toks : List String) : Acc :=
       | none => a.fail ("bad arg " ++ " ".intercalate rest)
   | ["call"] => { finishCall a with cur := some {} }
   | "pf" :: rest =>
-      match oracleLine? rest with
-      | some p => updCur a fun c => { c with otab := { c.otab with pf := c.otab.pf ++ [p] } }
-      | none => a.fail "bad pf"
-  | "pd" :: rest =>
-      match oracleLine? rest with
-      | some p => updCur a fun c => { c with otab := { c.otab with pd := c.otab.pd ++ [p] } }
-      | none => a.fail "bad pd"
+      match a.cur with
+      | some c => (match c.otab.addParse? rest with
+          | some t => { a with cur := some { c with otab := t } }
+          | none => a.fail "bad pf")
+      | none => a.fail "pf outside a call"
   | ["resp", st, b] =>
       match st.toInt?, optStr? b with
       | some st, some b => updCur a fun c => { c with status := st, body := b }
@@ -115,7 +113,7 @@ def step (a : Acc) (toks : List String) : Acc :=
   | ["ret"] => updCur a fun c => { c with obs := some (.ret []) }
   | ["item", n, v] =>
       match str? n, val? v with
-      | some n, some v => updCur a fun c => { c with items := c.items ++ [(n, v)] }
+      | some n, some v' => updCur a fun c => { c with items := c.items ++ [(n, v')], otab := c.otab.addRepr v }
       | _, _ => a.fail "bad item"
   | ["exc", cls, mro, code, desc, status] =>
       match optInt? code, optStr? desc, optInt? status with
